@@ -197,6 +197,7 @@ ReqOf(ev) ==
                 (Offered(ev.args.to, ev.args.alg) /\ (ev.args.entry \in {"der-explicit", "pem-explicit"} \/ AutoDetect(ev.args.to, ev.args.type) = ev.args.alg))
                   => ev.out = "Ok" /\ ev.obs.pubRaw = ev.args.pubRaw /\ ev.obs.alg = ev.args.alg>>,
             <<"C16.exported_spki_is_the_keys_spki", ev.args.exportedSpkiEqOpenssl>>,
+            <<"C16.signed_under_one_back_end_verifies_elsewhere", ev.args.certSigOk.openssl = "ok" /\ ev.args.certSigOk.ring \in {"ok", "na"}>>,
             <<"C16.auto_detected_key_has_same_public_key", ev.out = "Ok" => ev.obs.pubRaw = ev.args.pubRaw>> }
      [] ev.op = "CliRun" -> ReqCli(ev.be, ev.args.opts, ev.obs)
      [] ev.op = "ImportCa" -> ReqImportEv(ev)
